@@ -13,8 +13,8 @@ REF_ROOT = os.path.join(HERE, 'reference', 'src')
 
 # rule families whose verdict is not a function of the one function in the site
 NOT_LOCAL = ('F7.', 'F12.', 'F6cxx.', 'F5', 'F13.', 'F1cxx.', 'F2cxx.', 'F3cxx.', 'SELFTEST.', 'F1.sibling-mirror', 'E6.dynamic-field-predicate',
-             'C14b.precedence', 'F4.', 'C07.', 'F11.nondeterminism-source', 'F11.shared-state', 'C16e.', 'F16.pass-order', 'C09.swap',
-             'C18.byte-operators', 'C18.escape-table', 'C18.format-pieces', 'F15.', 'C12.', 'F8.', 'C10c.', 'C10e.')
+             'C14b.precedence', 'C07.', 'F11.nondeterminism-source', 'F11.shared-state', 'C16e.', 'F16.pass-order', 'C09.swap',
+             'C18.byte-operators', 'C18.escape-table', 'C18.format-pieces', 'F15.', 'C10c.', 'C10e.')
 
 SITE = re.compile(r'^(\S+\.py):\d+ \((.+)\)$')
 
@@ -57,4 +57,7 @@ class Reviewed(object):
         m = SITE.match(o.site or '')
         if not m:
             return False
+        for d in getattr(o, 'deps', ()) or ():
+            if d is None or not self.unchanged(d.module.rel, d.qualname):
+                return False
         return self.unchanged(m.group(1), m.group(2))
